@@ -25,9 +25,9 @@ func init() {
 		Real: "real: all of kvql from /repo's working tree, built with -race; client goroutines are real goroutines; simulated: storage engine (copy-on-write, race-invisible), scheduler (decides who runs at every storage call), callers",
 		NCases: func(tier string) int {
 			if tier == "thorough" {
-				return 40000
+				return 60000
 			}
-			return 1600
+			return 2000
 		},
 		Gen:    genC19,
 		Run:    runC19,
